@@ -276,12 +276,24 @@ def in_monitor():
     return getattr(_tls, "depth", 0) > 0
 
 
+class MonitorError(RuntimeError):
+    """an exception raised by monitor code itself (e.g. while reshaping a malformed result). It must never be mistaken for the
+    library's own documented ValueError / TypeError by a surrounding Ctx.raises."""
+
+
 @contextlib.contextmanager
-def monitor_scope():
-    """Code run inside is harness code calling the library: nested monitors neither run nor count."""
+def monitor_scope(convert=True):
+    """Code run inside is harness code calling the library: nested monitors neither run nor count. Exceptions escaping from it are
+    re-raised as MonitorError (convert=False where the block deliberately lets library exceptions through)."""
     _tls.depth = getattr(_tls, "depth", 0) + 1
     try:
         yield
+    except (Watchdog, MonitorError, KeyboardInterrupt):
+        raise
+    except Exception as e:
+        if not convert or type(e).__name__ == "Skip":
+            raise
+        raise MonitorError(f"monitor code raised {type(e).__name__}: {e}") from e
     finally:
         _tls.depth -= 1
 
@@ -379,6 +391,28 @@ def library_state_diff(a, b):
     if amb:
         out.append(amb)
     return "; ".join(out)[:500] or None
+
+
+_POISON = [float("nan"), 1e300, -7.5, 3.0]
+
+
+def poison_small_blocks(k=0):
+    """uninitialised-memory detector for numpy code (what MemorySanitizer is to C): numpy keeps freed blocks of fewer than 1024 bytes
+    in a per-size cache and hands them back, contents intact, to the next np.empty / np.ndarray of that size. Filling that cache with
+    a recognisable value (NaN, 1e300, -7.5 or 3.0, chosen by `k`) makes a result that reads memory it never wrote depend on `k`:
+    it shows up as a non-finite or wrong value in the postconditions, or as a mismatch between a call and its twin."""
+    val = _POISON[k % len(_POISON)]
+    keep = []
+    for n in range(1, 128):
+        for _ in range(8):
+            a = np.empty(n)
+            a.fill(val)
+            keep.append(a)
+    for n in (1, 2, 3, 5, 7, 9, 15, 17, 31, 33, 63):      # complex blocks of the same byte sizes are covered above; (2, n) blocks too
+        a = np.empty((2, n))
+        a.fill(val)
+        keep.append(a)
+    del keep
 
 
 def lopsided(rng, z, every=8):
